@@ -203,17 +203,19 @@ def run_unit(unit):
                 if m and cur is not None and "arity" not in cur:
                     cur["arity"] = _unq(m.group(1))
         c["yaml_entries"] = len(entries)
+        docs = {}
         for e in entries:
-            if e["kind"] != "element":
-                continue
-            key = e["key"]
+            if e["kind"] == "element":
+                docs.setdefault(e["key"], []).append(e.get("arity", "NA"))
+        for key, arities in docs.items():
             if key not in E.elements:
                 continue  # syntax / literal markers documented as elements
             res["evals"] += 1
             res["keys"].append(f"yaml:{key}")
-            doc = e.get("arity", "NA")
             table = E.elements[key][1]
-            if not _arity_compatible(doc, table):
+            # a key documented twice (see the duplicate-key obligation) matches if one entry does
+            doc = arities[0] if len(arities) == 1 else " or ".join(str(a) for a in arities)
+            if not any(_arity_compatible(a, table) for a in arities):
                 res["violations"].append(V("arity_mismatch", f"element {key!r}: documented arity {doc!r}, table arity {table}", unit_kind=k, subject=key, documented=doc, table=table))
         res["samples"].append(entries[10] if len(entries) > 10 else {})
     return res
@@ -248,7 +250,7 @@ def classify(w):
         return "C20-duplicate-key-ÞR"
     if m == "key_shadowed_by_syntax" and s == "x":
         return "C20-x-entry-shadowed-by-recurse"
-    if m == "arity_mismatch" and s in ("İ", "Ṡ", "…", "ÞR"):
+    if m == "arity_mismatch" and s in ("İ", "Ṡ", "…"):
         return "C20-documented-arity-" + s
     return None
 
